@@ -6,6 +6,7 @@
 #   verif.sh build            (rebuild the harness from /repo's working tree if needed; prints the binary path)
 #   verif.sh selftest determinism [worlds...] | sensitivity [seeds...] | conformance
 #   verif.sh audit race
+#   verif.sh coverage [seconds]   (statement coverage of the library under the worlds; non-deciding)
 # Exit codes: 0 held / 1 VIOLATION / 2 tooling trouble (never a violation).
 set -u
 ROOT="$(cd "$(dirname "${BASH_SOURCE[0]}")" && pwd)"
@@ -44,12 +45,13 @@ build() {
   local h bin
   h=$(src_hash "$race")
   bin="$CACHE/harness-$h.test"
+  if [ "$race" = cover ]; then bin="$CACHE/harness-cover-$h.test"; rm -f "$bin"; fi
   if [ -x "$bin" ]; then touch "$bin" 2>/dev/null; echo "$bin"; return 0; fi
   local rewriter
   rewriter=$(build_rewriter) || exit 2
   local S
   S=$(mktemp -d /tmp/verif-build.XXXXXX) || die2 "mktemp failed"
-  trap 'rm -rf "$S"' RETURN
+  if [ "$race" = cover ]; then echo "$S" > "$CACHE/cover-src-dir"; else trap 'rm -rf "$S"' RETURN; fi
   mkdir -p "$S/juniper"
   (cd "$REPO" && find . -type f \( -name '*.go' -o -name 'go.mod' -o -name 'go.sum' \) -not -name '*_test.go' -not -path './.git/*' -print0 | rsync -a --from0 --files-from=- ./ "$S/juniper/") || die2 "copy of $REPO failed"
   local egsrc
@@ -58,14 +60,15 @@ build() {
   mkdir -p "$S/juniper/internal/verif_errgroup"
   cp "$egsrc" "$S/juniper/internal/verif_errgroup/errgroup.go" && chmod u+w "$S/juniper/internal/verif_errgroup/errgroup.go"
   printf '\nrequire verifsim v0.0.0\n\nreplace verifsim => %s/sim\n' "$ROOT" >> "$S/juniper/go.mod"
-  if [ -z "$race" ]; then
+  if [ "$race" != race ]; then
     "$rewriter" -dir "$S/juniper" -errgroup github.com/bradenaw/juniper/internal/verif_errgroup >&2 || die2 "the source rewriter failed on $REPO's working tree (tooling trouble, not a violation)"
   fi
   sed -e "s#@SCRATCH@#$S#g" -e "s#@ROOT@#$ROOT#g" "$ROOT/worlds/go.mod.tmpl" > "$S/worlds.mod"
   cat "$REPO/go.sum" "$ROOT/worlds/go.sum.extra" > "$S/worlds.sum" 2>/dev/null
   local flags=(-tags verif -vet=off)
   local pkg=.
-  if [ -n "$race" ]; then flags+=(-race); pkg=./race; fi
+  if [ "$race" = race ]; then flags+=(-race); pkg=./race; fi
+  if [ "$race" = cover ]; then flags+=(-cover -coverpkg=github.com/bradenaw/juniper/...); fi
   (cd "$ROOT/worlds" && "$GO" test -c -modfile="$S/worlds.mod" "${flags[@]}" -o "$bin.tmp" "$pkg") >&2 || die2 "the harness does not build against $REPO's working tree (tooling trouble, not a violation)"
   mv "$bin.tmp" "$bin"
   # keep the cache small: drop binaries that have not been built or used for three hours (never a
@@ -168,6 +171,24 @@ PYEOF
       echo "audit race: the race detector reported races in the library's own tests (see above)"; exit 3
     fi
     echo "audit race: no race reported by the library's own tests of stream, parallel, xsync, chans (xtime left out: its only test is wall-clock sensitive)"
+    ;;
+  coverage)
+    # Non-deciding reach measurement: statement coverage of the library (the rewritten copy of
+    # /repo's working tree) under each world, per property. Usage: verif.sh coverage [seconds per world/property]
+    secs="${1:-5}"
+    bin=$(build cover) || exit 2
+    S=$(cat "$CACHE/cover-src-dir")
+    out="$ROOT/reach"; mkdir -p "$out"; rm -f "$out"/*.out
+    "$bin" -test.run='^TestHarness$' -mode=list 2>/dev/null | grep '\[' | while read -r w props; do
+      for p in $(echo "$props" | tr -d '[]'); do
+        rm -rf "$S/covdata"; mkdir -p "$S/covdata"
+        GOCOVERDIR="$S/covdata" "$bin" -test.run='^TestHarness$' -test.timeout=0 -mode=worker -world="$w" -prop="$p" -tier=quick -seed=1 -worker=0 -workers=1 -seconds="$secs" -out="$S/$w-$p.json" -root="$ROOT" >/dev/null 2>&1 </dev/null || echo "coverage: worker $w/$p exited $?" >&2
+        "$GO" tool covdata textfmt -i="$S/covdata" -o="$out/$w-$p.out" || echo "coverage: no data for $w/$p" >&2
+      done
+    done
+    python3 "$ROOT/coverage_report.py" "$S/juniper" "$out" > "$ROOT/reach/coverage.txt" || exit 2
+    rm -rf "$S" "$bin" "$CACHE/cover-src-dir" "$out"/*.out
+    cat "$ROOT/reach/coverage.txt"
     ;;
   worker)
     bin=$(build) || exit 2
